@@ -157,14 +157,14 @@ func ruleLoadBody(c *Check, rApply, rIterArgs, rValidate, rPreV3, rCancel string
 	if bad == 0 {
 		c.Ok(rApply, fnLoadTxn+"/apply-all", fmt.Sprintf("%d iteration paths: %d skip a private DBI untouched, %d reach strategy.Update(txn, target DBI (shadow name in shadow mode), iterator over this snapshot DBI), %d leave with an error; none passes a DBI over", len(its), nSkip, nUpd, nErr), pos)
 	}
-	c.Floor(rApply, nUpd, 4, "merging iteration paths in LoadOnce$1")
+	c.Floor(rApply, nUpd, 4, "merging iteration paths in LoadOnce body")
 	if badArgs == 0 {
 		c.Ok(rIterArgs, fnLoadTxn+"/iterator-args", fmt.Sprintf("%d iterator constructions get the snapshot's versions, no default timestamp, txn.ID() of this transaction and deletedCutoff(t0)", nArgs), pos)
 	}
 	if badVal == 0 {
 		c.Ok(rValidate, fnLoadTxn+"/validate-before-touch", fmt.Sprintf("%d LMDB-touching calls in DBI iterations are all preceded by the private-prefix test and a successful ValidateTransform of that DBI", nTouch), pos)
 	}
-	c.Floor(rValidate, nTouch, 8, "touching calls in LoadOnce$1")
+	c.Floor(rValidate, nTouch, 8, "touching calls in LoadOnce body")
 	if badV3 == 0 {
 		c.Ok(rPreV3, fnLoadTxn+"/pre-v3-create", fmt.Sprintf("%d paths creating the application DBI: format version >= 3 or an explicit override_create_flags", nCreate), pos)
 	}
@@ -186,7 +186,7 @@ func ruleLoadBody(c *Check, rApply, rIterArgs, rValidate, rPreV3, rCancel string
 	if badc == 0 {
 		c.Ok(rCancel, fnLoadTxn+"/cancel", fmt.Sprintf("%d cancelled paths return context.Canceled from the transaction body (aborting it)", nc), pos)
 	}
-	c.Floor(rCancel, nc, 1, "cancellation exits in LoadOnce$1")
+	c.Floor(rCancel, nc, 1, "cancellation exits in LoadOnce body")
 }
 
 // C18-R3 VERSION-GATES.
